@@ -260,6 +260,9 @@ def run(s):
         s.oblige("C11.constructible[%s]" % method, lambda method=method: constructible(mg, method), [MG + "interpolate_modes"], kind="finite")
     # ---------------- 4. exactness, bounded
     exactness(s, mg)
+    # q-points and modes are not mixed: the per-mode series handed to the interpolation are the columns of the FILE, which the reader (qha_input.py, outside this property's anchored files) must return in the listed branch order
+    from props import C17
+    s.oblige("C11.reader.hands_over_as_written(hand-written files)", C17.reader_hands_over_as_written, ["qha_input.read_energy"], kind="finite")
     s.min_obligations = 16
 
 
@@ -377,7 +380,16 @@ def plot_selection():
     base = numpy.arange(ntv * nq * npm, dtype=float).reshape(ntv, nq, npm)
     freq, gam, vdg = base + 1000, base + 2000, base + 3000
     v_array = numpy.linspace(900, 700, ntv)
-    calc = types.SimpleNamespace(freq_array=freq, mode_gamma=[vdg, gam, gam ** 2], v_array=v_array, np=npm, qha_input=duck_input(4, nq, npm))
+    # the calculator's fields are produced by its own glue (Calculator._interpolate_modes) from what interpolate_modes returns: the plot must draw THOSE three arrays,
+    # whatever internal convention (order, signs, squares) the glue and the plotter share
+    calc = types.SimpleNamespace(v_array=v_array, np=npm, qha_input=duck_input(4, nq, npm), qha_calculator=types.SimpleNamespace(v_array=v_array),
+                                 config={"elast": {"settings": {"mode_gamma": {"interpolator": "lsq_poly", "order": 3}}}})
+    try:
+        cal = importlib.import_module("cij.core.calculator")
+        with patched(cal, interpolate_modes=lambda *a, **k: (freq.copy(), gam.copy(), vdg.copy())):
+            cal.Calculator._interpolate_modes(calc)
+    except Exception as e:  # noqa: BLE001
+        raise core.OutsideSubset("Calculator._interpolate_modes cannot be run on the recording calculator (%s: %s)" % (type(e).__name__, e))
 
     class Ax:
         def __init__(self):
